@@ -51,12 +51,24 @@ def props_of_dump(plist, out, where):
 
 
 def cmp_props(el, got_list, out, where):
+    """attribute -> value map.  A stream that repeats an attribute number inside one element is outside
+    the specification (attribute numbers of one element must be distinct); gdstk documents
+    set_gds_property as overwriting, a reader keeping the first value would be equally defensible.  For
+    such streams the only demand is coherence: exactly one entry per attribute number, holding the
+    complete first or the complete last value the stream gave for it - never a truncated or mixed one."""
     exp = {}
     for a, v in el['props']:
-        exp[a] = v
+        exp.setdefault(a, []).append(v)
     got = props_of_dump(got_list, out, where)
-    if got != exp:
-        out.append((where + '.properties', 'value', 'expected %r got %r' % (exp, got)))
+    if set(got) != set(exp):
+        out.append((where + '.properties', 'value', 'expected attributes %r got %r' % (sorted(exp), got)))
+        return
+    for a, vals in exp.items():
+        if len(vals) == 1:
+            if got[a] != vals[0]:
+                out.append((where + '.properties', 'value', 'attribute %d: expected %r got %r' % (a, vals[0], got[a])))
+        elif got[a] not in (vals[0], vals[-1]):
+            out.append((where + '.properties_repeated_attr', 'value', 'attribute %d given %d times (%r): loaded value %r is neither the first nor the last' % (a, len(vals), vals, got[a])))
 
 
 def lattice(el, F):
@@ -242,7 +254,7 @@ def frel(got, exp, rel=1e-12):
     return abs(Fraction(got) - exp) <= Fraction(rel) * abs(exp)
 
 
-def src_props(plist):
+def dump_props(plist):
     d = {}
     for p in plist:
         vals = p.get('values', [])
@@ -261,9 +273,37 @@ def take_match(pool, pred):
     return None
 
 
-def d2_compare(data, source, max_points, counters):
-    """-> mismatches.  counters: dict incremented with out-of-scope / informational counts"""
+def history_model(history):
+    """the judge's own model of a GDSII property list under a history of calls: set overwrites the value of
+    the attribute (last write wins, with ITS length), remove deletes the attribute if present"""
+    d = {}
+    for op in history:
+        if op[0] == 'set':
+            d[int(op[1])] = op[2].encode('latin-1')
+        elif op[0] == 'remove':
+            d.pop(int(op[1]), None)
+    return d
+
+
+def d2_compare(data, source, max_points, counters, history=None):
+    """-> mismatches.  counters: dict incremented with out-of-scope / informational counts.
+    history: for the prophist kind, the sequence of property calls that built the element in cell TOP*; the
+    expected PROPATTR/PROPVALUE pairs then come from history_model(), not from the dump."""
     out = []
+    model = history_model(history) if history is not None else None
+
+    def src_props(plist, cellname=''):
+        if model is not None and cellname.startswith('TOP'):
+            return model
+        return dump_props(plist)
+    if model is not None:
+        for sc in source['cells']:
+            if sc['name'].startswith('TOP'):
+                for k in ('polygons', 'flexpaths', 'labels', 'references'):
+                    for e in sc[k]:
+                        if dump_props(e['properties']) != model or len(e['properties']) != len(model):
+                            out.append(('properties.history_model', 'set_gds_property/remove_gds_property',
+                                        'after history %r the element holds %r, last-write-wins model says %r' % (history, e['properties'], model)))
     notes = []
     try:
         lay = G.decode(data, strict=True, notes=notes)
@@ -294,9 +334,9 @@ def d2_compare(data, source, max_points, counters):
                 continue
             offs = p['repetition']['expanded']
             if max_points > 4 and n > max_points:
-                fractured_tags.append((p['tag'], len(offs), src_props(p['properties'])))
+                fractured_tags.append((p['tag'], len(offs), src_props(p['properties'], sc['name'])))
                 continue
-            props = src_props(p['properties'])
+            props = src_props(p['properties'], sc['name'])
             for o in offs:
                 exact = [((fr(o[0]) + fr(q[0])) * S, (fr(o[1]) + fr(q[1])) * S) for q in p['points']]
                 hit = take_match(pool['boundary'], lambda e: e['layer'] == p['tag'][0] and e['datatype'] == p['tag'][1] and len(e['xy']) == n and
@@ -308,7 +348,7 @@ def d2_compare(data, source, max_points, counters):
                     pass
         # paths
         for f in sc['flexpaths']:
-            props = src_props(f['properties'])
+            props = src_props(f['properties'], sc['name'])
             if not f['simple_path']:
                 counters['out_of_scope_nonsimple_path'] = counters.get('out_of_scope_nonsimple_path', 0) + 1
                 for el in f['elements']:
@@ -334,7 +374,7 @@ def d2_compare(data, source, max_points, counters):
                                 return False
                         elif e['bgnextn'] or e['endextn']:
                             return False
-                        return all(pt_rounds(a, b) for a, b in zip(e['xy'], exact)) and dict(e['props']) == props
+                        return all(pt_rounds(a, b) for a, b in zip(e['xy'], exact)) and dict(e['props']) == props and len(e['props']) == len(props)
                     if take_match(pool['path'], pred) is None:
                         out.append(('path.missing', 'path', 'no PATH for element tag %r end %s half-width %r scale_width %r ext %r offset %r; candidates %r' % (
                             el['tag'], el['end'], el['half_width_and_offset'][0][0], f['scale_width'], el['end_extensions'], o,
@@ -343,7 +383,7 @@ def d2_compare(data, source, max_points, counters):
             counters['out_of_scope_robustpath'] = counters.get('out_of_scope_robustpath', 0) + 1
         # labels
         for l in sc['labels']:
-            props = src_props(l['properties'])
+            props = src_props(l['properties'], sc['name'])
             vj, hj = ANCHOR_JUST.get(l['anchor'], (None, None))
             deg = fr(l['rotation']) * 180 / fr(math.pi)
             for o in l['repetition']['expanded']:
@@ -352,20 +392,20 @@ def d2_compare(data, source, max_points, counters):
                 def pred(e):
                     return ((e['layer'], e['texttype']) == tuple(l['tag']) and e['string'] == l['text'].encode('latin-1') and (e['vjust'], e['hjust']) == (vj, hj)
                             and e['font'] == 0 and e['reflect'] == l['x_reflection'] and not e['absmag'] and not e['absangle'] and frel(e['mag'], fr(l['magnification']))
-                            and frel(e['angle'], deg) and pt_rounds(e['xy'], exact) and dict(e['props']) == props and e['pathtype'] == 0 and e['width'] == 0)
+                            and frel(e['angle'], deg) and pt_rounds(e['xy'], exact) and dict(e['props']) == props and len(e['props']) == len(props) and e['pathtype'] == 0 and e['width'] == 0)
                 if take_match(pool['text'], pred) is None:
                     out.append(('label.missing', 'text', 'no TEXT for label %r anchor %d rot %r mag %r refl %r at exact (%.6f, %.6f) props %r; candidates %r' % (
                         l['text'], l['anchor'], l['rotation'], l['magnification'], l['x_reflection'], float(exact[0]), float(exact[1]), props,
                         [G.to_jsonable({k: e[k] for k in ('layer', 'texttype', 'font', 'vjust', 'hjust', 'reflect', 'mag', 'angle', 'xy', 'string', 'props')}) for e in pool['text'][:2]])))
         # references
         for r in sc['references']:
-            props = src_props(r['properties'])
+            props = src_props(r['properties'], sc['name'])
             deg = fr(r['rotation']) * 180 / fr(math.pi)
             rep = r['repetition']
 
             def common(e):
                 return (e['sname'] == r['target'] and e['reflect'] == r['x_reflection'] and not e['absmag'] and not e['absangle']
-                        and frel(e['mag'], fr(r['magnification'])) and frel(e['angle'], deg) and dict(e['props']) == props)
+                        and frel(e['mag'], fr(r['magnification'])) and frel(e['angle'], deg) and dict(e['props']) == props and len(e['props']) == len(props))
             o0 = (fr(r['origin'][0]), fr(r['origin'][1]))
             done = False
             if rep['type'] in ('rectangular', 'regular'):
